@@ -7,7 +7,7 @@ LEVEL = "fault_enumeration"
 RULE = ("8 small models (chain; loop with tank; pump + tank with level controls that force re-solves; PDD; isolated part; report "
         "step 2 h with 1 h hydraulic step; 'ALL' reporting with an off-grid time control).  For each the fault-free run is "
         "recorded (N nonlinear solves incl. re-solves).  EVERY single fault = (solve index k in 1..N) x kind {iteration limit: the "
-        "k-th NewtonSolver.solve runs with maxiter=1; singular Jacobian: the k-th solve sees a Jacobian with a zeroed row (from its first or from its second iteration on), which "
+        "k-th NewtonSolver.solve runs with maxiter=1 (also with the line search off / starting after the limit, maxiter=2); singular Jacobian: the k-th solve sees a Jacobian with a zeroed row (from its first or from its second iteration on), which "
         "makes spsolve raise the library's MatrixRankWarning; line-search failure: BT_MAXITER=1 and a perturbed start} x "
         "convergence_error {False, True} x backup solver {none, succeeding, failing too}; trial-limit faults: trials {0, 1} and two "
         "mutually contradicting pressure controls; fault-free shape family: 3 (7) models x duration {0, < step, off grid, ...} x hydraulic step {1 h, 30 min, 45 min} x report step {= step, 2 h, 90 min, 15 min, ALL}.  thorough adds every PAIR of faults k1 < k2 with a succeeding backup and "
@@ -65,6 +65,16 @@ class Injector(object):
             k = inj.n
             kind = inj.faults.get(k)
             t = inj.wn.sim_time if inj.wn is not None else None
+            if kind in ("maxiter_nobt", "maxiter_btlate"):
+                # the same iteration-limit fault with the line search switched off / starting later than the limit
+                # (documented solver options BACKTRACKING, BT_START_ITER)
+                slf.maxiter = 2
+                if kind == "maxiter_nobt":
+                    slf.bt = False
+                else:
+                    slf.bt_start_iter = 50
+                x = model.get_x()
+                model.load_var_values_from_x(x * 3.0 + 2.0)
             if kind == "maxiter":
                 slf.maxiter = 1
                 # make sure the start is not already converged: shift every unknown a little
@@ -370,7 +380,7 @@ def run_case(c):
     neff = 0
     if c["mode"] == "enumerate":
         for k in range(1, N + 1):
-            for kind in ("maxiter", "singular", "singular_late", "linesearch"):
+            for kind in ("maxiter", "singular", "singular_late", "linesearch", "maxiter_nobt", "maxiter_btlate"):
                 for ce in (False, True):
                     for backup in (None, "succeeds", "fails"):
                         v, eff = judge_fault(s, ref, {k: kind}, ce, backup, counts, c["model"])
